@@ -363,6 +363,31 @@ func genC05(t *rapid.T) *c05Case {
 	}
 	c.FaultC2S = genRelayScript(t, "f_c2s", 80)
 	c.FaultS2C = genRelayScript(t, "f_s2c", 80)
+	// a burst: 30-90 small writes back to back in one direction, so that the
+	// GBN window (the mailbox's fixed N=20, sequence space 21) stays full and
+	// wraps several times, with single relay messages lost throughout - among
+	// them, in a good share of these cases, the packet that carries the last
+	// sequence number of a lap while packets of the next lap are in flight
+	if rapid.IntRange(0, 5).Draw(t, "burst") == 0 {
+		n := rapid.IntRange(30, 90).Draw(t, "burst_n")
+		small := make([]int, n)
+		for i := range small {
+			small[i] = 1 + (i*11)%37
+		}
+		pct := rapid.SampledFrom([]int{5, 10, 20}).Draw(t, "burst_drop")
+		g := rapid.Custom(func(t *rapid.T) relay.Decision {
+			if rapid.IntRange(0, 99).Draw(t, "x") < pct {
+				return relay.Decision{Kind: "drop"}
+			}
+			return relay.Decision{Kind: "deliver"}
+		})
+		script := rapid.SliceOfN(g, 60, 200).Draw(t, "burst_script")
+		if rapid.Bool().Draw(t, "burst_dir") {
+			c.C2S, c.FaultC2S = small, script
+		} else {
+			c.S2C, c.FaultS2C = small, script
+		}
+	}
 	c.LatMs = rapid.SampledFrom([]int{0, 1, 50, 200}).Draw(t, "lat")
 	c.ArmAfter = rapid.IntRange(0, 3).Draw(t, "arm_after") != 0
 	if rapid.Bool().Draw(t, "vary_bufs") {
@@ -399,6 +424,9 @@ func TestC05EndToEnd(t *testing.T) {
 		}
 		if len(c.C2S) > 0 && len(c.S2C) > 0 {
 			o.labels = append(o.labels, "bidirectional")
+		}
+		if (len(c.C2S) >= 30 && len(c.C2S) <= 90) || (len(c.S2C) >= 30 && len(c.S2C) <= 90) {
+			o.labels = append(o.labels, "burst_wrapping_the_window_with_losses")
 		}
 		rec.Case(o.nontrivial, fmt.Sprintf("%+v", *c), o.labels...)
 		if o.nontrivial && rec.WantSample() {
